@@ -384,6 +384,10 @@ pub fn random_script<W: Write, const L: usize>(em: &mut Emitter<W>, id: u64, rng
             if let Some(i) = pick_id(rng, &run, want) {
                 let cur = run.book.order(i).vol;
                 let p = match rng.below(3) { 0 => None, _ => Some(if fam.offgrid && rng.chance(1, 3) { pm.price(rng).wrapping_add(1 + rng.below(tick.max(2) as u64 - 1) as u32) } else { pm.price(rng) }) };
+                // now and then: the order's own price restated, or its reflection 2^32-1-p (the key a bid is stored
+                // under; off the grid unless the tick divides 2^32-1)
+                let own = run.book.order(i).price;
+                let p = match rng.below(16) { 0 => Some(own), 1 => Some(u32::MAX - own), _ => p };
                 let v = if extreme && rng.chance(1, 3) { Some(if rng.chance(1, 2) { 1 + rng.below(10) as u32 } else { huge_vol(rng) }) } else {
                     match rng.below(5) { 0 => None, 1 => Some(cur.saturating_sub(1 + rng.below(3) as u32).max(1)), 2 => Some(cur.max(1)), 3 => Some(cur.saturating_add(1 + rng.below(4) as u32)), _ => Some(vol(rng, wide_vol)) } };
                 run.op(&if ev { Op::EvModify(i, p, v) } else { Op::Modify(i, p, v) });
